@@ -1,6 +1,7 @@
 import LhasaV.Lemmas.HeaderSound
 import LhasaV.Lemmas.StreamProps
 import LhasaV.Lemmas.ReaderLedger
+import LhasaV.Lemmas.ToolNoFault
 /-!
 # C08 — no archive bytes can make the library or tool touch invalid memory or abort
 -/
@@ -32,5 +33,54 @@ the number of its owners — so the header handed to the caller is alive while i
 theorem reader_no_uaf (st : Stream.St) (pol : Reader.DirPolicy) (mk : Nat → Nat) (ops : List Reader.Op) :
     Reader.Inv (Reader.run (Reader.fresh st pol mk) ops) :=
   Reader.run_inv (Reader.inv_fresh st pol mk) ops
+
+/-! ## The tool
+
+`ToolNoFault.NoFault archive o fs answers cmd` (by command letter): for `x`/`e` no `Reader.next` of
+the extraction loop returns an error and every reader state the loop visits — before and after every
+`next`, after every `extract_archived_file` — is `Ok`: it is the state after a LEGAL history of the
+tool's reader, `next` on it does not fault, header ownership holds (`Reader.Inv`) and the open
+decoder, if any, is one of the table whose state is reachable from its initial state (so the C09
+no-fault theorems apply to its next read) and bears no mark of a faulted read; for `p` the same
+along `print_archive`/`print_archived_file` (before and after every 512-byte read); for `l`/`v`
+obtaining the header list never faults (the rendering is a total function of that list). -/
+
+/-- **C08, the tool.** For every command letter the model has (x, e, p, l, v), EVERY archive (any
+bytes), all options, any file-system state and any prompt answers: the run does not fault. -/
+theorem tool_no_fault (cmd : ToolNoFault.Cmd) (archive : Array UInt8) (o : Extract.Opts) (fs : Fs.St)
+    (answers : Bytes) : ToolNoFault.NoFault archive o fs answers cmd :=
+  ToolNoFault.tool_no_fault cmd archive o fs answers
+
+/-- `lha x`: the extraction loop never sees a faulting `next` -/
+theorem extract_run_no_fault (archive : Array UInt8) (o : Extract.Opts) (fs : Fs.St) (answers : Bytes) :
+    "fault" ∉ (Extract.run archive o fs answers).out :=
+  ToolNoFault.extract_run_no_fault archive o fs answers
+
+/-- `lha p`: the fault-propagating copy of the print loop returns exactly the printed bytes -/
+theorem print_run_no_fault (archive : Array UInt8) (o : Extract.Opts) :
+    ToolNoFault.printE archive o = .ok (Extract.print archive o) :=
+  ToolNoFault.print_run_no_fault archive o
+
+/-- `lha l/v`: walking the headers never faults -/
+theorem list_headers_no_fault (archive : Array UInt8) (fuel : Nat) :
+    ∃ hdrs, Driver.allHeaders fuel (ToolNoFault.toolReader archive) [] = .ok hdrs :=
+  ToolNoFault.list_headers_no_fault archive fuel
+
+/-- the library on EVERY call history (legal or not; this is also `lha t`, whose loop is
+next/check): `next` does not fault, ownership holds, no decoder state carries a fault mark -/
+theorem history_no_fault (st : Stream.St) (pol : Reader.DirPolicy) (mk : Nat → Nat)
+    (hl : st.leadin.length ≤ 24) (ops : List Reader.Op) :
+    (∃ r, Reader.next (Reader.run (Reader.fresh st pol mk) ops) = .ok r) ∧
+    Reader.Inv (Reader.run (Reader.fresh st pol mk) ops) ∧
+    Reader.DecClean (Reader.run (Reader.fresh st pol mk) ops) :=
+  Reader.history_no_fault st pol mk hl ops
+
+/-- what `Ok` gives at every visited state, spelled out -/
+theorem visited_state_ok {A : Array UInt8} {rd : Reader.St} (h : ToolNoFault.Ok A rd) :
+    (∃ ops, Reader.Legal ops ∧ rd = Reader.run (Reader.fresh { kind := .seekable, data := A } .endOfDir Header.dosTimeUTC) ops) ∧
+    (∃ r, Reader.next rd = .ok r) ∧ Reader.Inv rd ∧
+    (∀ o, rd.dec = some o → ∃ mr, Dec.SafeM o.d mr ∧
+      ∀ ist, o.innerSt = some ist → Dec.Clean o.d ist.inner ∧ ist.pending.length ≤ mr) :=
+  ToolNoFault.ok_spelled h
 
 end LhasaV.Props.C08
